@@ -102,6 +102,21 @@ def check_instance(rec, ctx, e, key, shape, rng):
         try:
             twin = cls(**vals)
             law("hash_eq", "twin", twin == e and hash(twin) == hash(e), "an instance rebuilt from its own field values is unequal or hashes differently")
+            # the same field values passed by keyword in another order, and partly positionally, must give the same instance
+            names = list(vals)
+            sf_names = [f.name for f in exprs.sympy_fields(cls)]
+            for trial in range(3):
+                order = [names[i] for i in rng.permutation(len(names))]
+                n_pos = int(rng.integers(0, len(sf_names) + 1)) if trial else 0
+                pos = [vals[nm] for nm in sf_names[:n_pos]]
+                kw = {nm: vals[nm] for nm in order if nm not in sf_names[:n_pos]}
+                if trial == 2:   # only the fields without a default, by keyword (defaults left out)
+                    kw = {nm: v for nm, v in kw.items() if nm in sf_names}
+                    if any(vals[f.name] != f.default for f in extras if f.default is not dataclasses.MISSING) or any(f.default is dataclasses.MISSING for f in extras):
+                        continue
+                built = cls(*pos, **kw)
+                law("hash_eq", "keyword_order", built == e and built.args == e.args,
+                    f"constructing with {n_pos} positional and keywords in the order {list(kw)} gives {sp.srepr(built)[:200]}, not the instance built in declaration order")
         except Exception as exc:  # noqa: BLE001
             law("hash_eq", "twin", False, f"rebuilding from field values raised {exc!r}")
         for f in extras:
